@@ -208,6 +208,8 @@ enum Ending {
     CancelInBegin,
 }
 
+const WRITER_PANIC: &str = "writer panics inside its transaction";
+
 const ENDINGS: [Ending; 11] = [
     Ending::CommitMacro,
     Ending::Commit,
@@ -350,7 +352,7 @@ async fn transaction_task(
         Ending::Panic => {
             emit(json!({"ev": "PermitDrop", "w": w, "t": t, "why": "panic"}));
             let _permit = permit;
-            panic!("writer panics inside its transaction");
+            panic!("{}", WRITER_PANIC);
         }
         Ending::CancelHolding | Ending::CancelInBegin => {
             // hold the permit until the supervisor aborts this task
@@ -383,7 +385,13 @@ async fn writer(store: SqliteStore, w: String, plans: Vec<Plan>, abort_after: Ve
             Ok(Ok(())) => {}
             Ok(Err(e)) => problems.push(format!("{w}/{t}: {e}")),
             Err(e) if e.is_cancelled() => {}
-            Err(e) if e.is_panic() && ending == Ending::Panic => {}
+            Err(e) if e.is_panic() => {
+                // only the writer's own panic is expected; a panic of the store is a finding
+                let text = panic_text(e.into_panic());
+                if !(ending == Ending::Panic && text == WRITER_PANIC) {
+                    problems.push(format!("PANIC {w}/{t}: {text}"));
+                }
+            }
             Err(e) => problems.push(format!("{w}/{t}: task failed: {e}")),
         }
     }
@@ -419,7 +427,7 @@ fn record_run(rng: &mut Rng, run: usize, kind: &'static str) -> RunResult {
     let workers = rng.range(2, 4) as usize;
     let rt = tokio::runtime::Builder::new_multi_thread().worker_threads(workers).enable_all().build().expect("runtime");
     let _ = verif::drain();
-    let out = rt.block_on(async move {
+    let out = catch_unwind(AssertUnwindSafe(|| rt.block_on(async move {
         let db = Db::open(kind, run as u64).await;
         let _ = verif::drain(); // hook events of nothing so far; be sure the log starts empty
         emit(json!({"ev": "Reset", "run": run, "store": kind, "writers": nwriters}));
@@ -473,7 +481,12 @@ fn record_run(rng: &mut Rng, run: usize, kind: &'static str) -> RunResult {
         }
         let problems = (problems, select_error);
         (problems, hung, committed)
-    });
+    })));
+    let out = match out {
+        Ok(o) => o,
+        // a panic of the store in the main task (the final transaction)
+        Err(e) => ((vec![format!("PANIC main: {}", panic_text(e))], None), false, 0),
+    };
     if out.1 {
         // tasks may be stuck for good: do not wait for them
         rt.shutdown_background();
@@ -540,6 +553,14 @@ fn record(args: &Args) {
                 "C10",
                 "committed-rows-unreadable",
                 format!("[{kind} pool] after all writers finished the committed rows cannot be read: {e}"),
+                json!({"run": run, "store": kind, "events": r.events}),
+            );
+        }
+        if let Some(p) = r.problems.iter().find(|p| p.starts_with("PANIC")) {
+            out.violation(
+                "C10",
+                "store-panics",
+                format!("[{kind} pool] {p}"),
                 json!({"run": run, "store": kind, "events": r.events}),
             );
         }
